@@ -69,13 +69,26 @@ func VerifH_SYS_C17() {
 		verifEvent("app:handle" + itoa(i))
 	}
 	var connErr error
+	connectReturned := false
+	// an unrelated second client of the same process (default options), never connected, with its own handler
+	var cli2 ReconnectClient
+	if verifChoice("otherclient", 2) == 1 {
+		var err2 error
+		cli2, err2 = NewReconnectClient(&vbroker{}, WithReconnectWait(unit, 4*unit))
+		verifAssert(err2 == nil, "SYS.new_client")
+	}
 	verifOnQuiescence(func() {
 		verifReach("quiescent")
+		// registering a handler (from wherever the application does it) and connecting complete
+		verifAssert(connectReturned, "C17.registration_and_connect_complete")
 		if connErr != nil {
 			return
 		}
 		verifLock()
 		defer verifUnlock()
+		for _, g := range got {
+			verifAssert(g.h != 9, "C17.unrelated_client_handler_not_called")
+		}
 		for _, in := range inbound {
 			if b.conns[in.conn].nRead < in.end {
 				continue // never fully read by the client
@@ -130,18 +143,32 @@ func VerifH_SYS_C17() {
 			}
 		}
 	})
-	point1 := verifChoice("handle1", 3) // 0 before Connect, 1 after Connect, 2 after an idle pause
+	point1 := verifChoice("handle1", 4) // 0 before Connect, 1 after Connect, 2 after an idle pause, 3 from the ConnState callback when the first connection becomes Active
 	point2 := verifChoice("handle2", 3+verifParam("handleany", 0)) // 0 never, 1 right after Connect, 2 after an idle pause, 3 at any scheduling point
 	if point1 == 0 {
 		handle(1)
 	}
+	if point1 == 3 {
+		registered := false
+		b.onState = func(ci int, s ConnState, err error) {
+			if s == StateActive && !registered {
+				registered = true
+				handle(1)
+			}
+		}
+	}
 	_, connErr = cli.Connect(context.Background(), "cid", WithCleanSession(false))
+	connectReturned = true
 	verifEvent("app:connected")
 	if point1 == 1 {
 		handle(1)
 	}
 	if point2 == 1 {
 		handle(2)
+	}
+	if cli2 != nil {
+		cli2.Handle(mk(9))
+		verifEvent("app:other-client-handle")
 	}
 	// a request, so that faults have something to hit
 	_ = cli.Publish(context.Background(), &Message{Topic: "t", QoS: QoS1, Payload: []byte{1}})
